@@ -28,7 +28,7 @@ SPELLINGS = {
 }
 KINDS = {
     "Int": ([0, 1, -1, 5], ["0", "1", "-1", "5", "3"], int),
-    "Float": ([0.0, 2.5, -1.5, 3.0], ["0", "2.5", "-1.5", "3"], float),
+    "Float": ([0.0, 2.5, -1.5, 3.0, 0.30000000000000004, 4000000001.0], ["0", "2.5", "-1.5", "3", "0.3", "4000000000"], float),
     "Str": (["", "a", "b"], ["", "a", "b"], str),
     "Bool": ([0, 1], ["0", "1"], int),
 }
